@@ -123,6 +123,14 @@ def run_jobs(jobs, workers=16):
     return rebuilt
 
 
+DIST_INC = [os.path.join(VERIF, "engine/simmpi"), os.path.join(REPO, "libdist/include"), os.path.join(REPO, "libgluon/include"),
+            os.path.join(REPO, "libcusp/include"), os.path.join(REPO, "lonestar/libdistbench/include")]
+DIST_LIBS = {
+    "libdist": ("libdist/src", {"NetworkLCI.cpp"}, []),
+    "libgluon": ("libgluon/src", set(), []),
+    "libdistbench": ("lonestar/libdistbench/src", set(), []),
+}
+
 LIB_SETS = {
     "libgalois": ("libgalois/src", lambda f: f.endswith(".cpp") and f != "HWTopoDarwin.cpp"),
     "libsupport": None,
@@ -140,6 +148,15 @@ def lib_jobs(variant, name="libgalois"):
             if f.endswith(".cpp") and f != "HWTopoDarwin.cpp":
                 jobs.append((os.path.join(d, f), os.path.join(out, f[:-4] + ".o"), flags))
         jobs.append((os.path.join(BUILD, "gen/Version.cpp"), os.path.join(out, "Version.o"), flags))
+    elif name in DIST_LIBS:
+        d, skip, xflags = DIST_LIBS[name]
+        fl = COMMON + TSAN + VARIANTS[variant] + includes(DIST_INC) + ["-DGALOIS_SUPPORT_ASYNC=1", "-isystem", "/usr/lib/llvm-14/include"] + xflags
+        for f in sorted(os.listdir(os.path.join(REPO, d))):
+            if f.endswith(".cpp") and f not in skip:
+                jobs.append((os.path.join(REPO, d, f), os.path.join(out, f[:-4] + ".o"), fl))
+    elif name == "simmpi":
+        jobs.append((os.path.join(VERIF, "engine/simmpi.cpp"), os.path.join(BUILD, "engine/simmpi.o"),
+                     ["-std=c++17", "-O2", "-g1", "-w", "-fno-omit-frame-pointer", "-I" + os.path.join(VERIF, "engine")]))
     return jobs
 
 
